@@ -482,21 +482,17 @@ def minimize_subcircuits(
         for input in inputs:
             found_patterns[subcircuit.patterns[input]] = input
 
-        MAX_PATTERN: int = (1 << (1 << len(inputs))) - 1
         filtered_outputs: set[Label] = set()
         filtered_outputs_lst: list[Label] = list()
         outputs_mapping: tp.DefaultDict[Label, Label] = collections.defaultdict(Label)
-        outputs_negation_mapping: tp.DefaultDict[Label, Label] = (
-            collections.defaultdict(Label)
-        )
 
         for output in subcircuit.outputs:
             pattern: int = subcircuit.patterns[output]
             if pattern in found_patterns:
                 outputs_mapping[output] = found_patterns[pattern]
-            elif MAX_PATTERN - pattern in found_patterns:
-                outputs_negation_mapping[output] = found_patterns[MAX_PATTERN - pattern]
             else:
+                # an output that is the negation of a leaf or of another output
+                # is an output like any other: it is not the same signal.
                 filtered_outputs.add(output)
                 filtered_outputs_lst.append(output)
                 found_patterns[pattern] = output
@@ -504,11 +500,7 @@ def minimize_subcircuits(
         if not filtered_outputs:
             logger.debug("All outputs have trivial input patterns")
             for output in subcircuit.outputs:
-                new_output = (
-                    outputs_mapping[output]
-                    if output in outputs_mapping
-                    else outputs_negation_mapping[output]
-                )
+                new_output = outputs_mapping[output]
                 for user in circuit.get_gate_users(output):
                     new_operands = tuple(
                         new_output if operand == output else operand
@@ -522,6 +514,11 @@ def minimize_subcircuits(
                 circuit.remove_gate(output)
                 node_states[output] = _NodeState.REMOVED
                 node_states[new_output] = _NodeState.REMOVED
+            continue
+
+        if outputs_mapping:
+            # some outputs repeat a leaf or another output; replace_subcircuit maps
+            # outputs one to one, so such a cone is left as it is.
             continue
 
         outputs_tt: RawTruthTableModel = [
@@ -552,17 +549,6 @@ def minimize_subcircuits(
         for i, old_gate in enumerate(filtered_outputs_lst):
             new_gate = new_subcircuit.outputs[i]
             output_labels_mapping[old_gate] = new_gate
-
-        for output in subcircuit.outputs:
-            if output not in filtered_outputs:
-                negation_gate: Label = outputs_negation_mapping[output]
-                new_gate = output_labels_mapping[negation_gate]
-
-                for user in new_subcircuit.get_gate_users(new_gate):
-                    if new_subcircuit.get_gate(user).gate_type.name == 'NOT':
-                        output_labels_mapping[output] = user
-                        new_subcircuit.mark_as_output(user)
-                        break
 
         # Changing initial circuit
         new_circuit: Circuit = copy.deepcopy(circuit)
